@@ -335,9 +335,15 @@ impl ThreadCtx {
             }
             TOp::Update(k) => {
                 let Some(o) = self.owner() else { return };
+                let sp = k * 5;
                 let k = k as u64 * 1_000_000;
                 let inv = t();
-                o.update(|v| *v += k);
+                // a read-modify-write with user code in between: the closure runs under the lock
+                o.update(|v| {
+                    let x = *v;
+                    spin(sp);
+                    *v = x + k;
+                });
                 let res = t();
                 self.recs.push(Rec { thread: self.tid, main: self.main_phase, kind: Kind::Update { k }, inv, res });
             }
